@@ -5,8 +5,16 @@ SRC = "cell-7.swc"      # every tree the executors build names a source file: re
 
 
 def vid(c):
-    """variant selector of a case: its number in the run that produced it (kept when the case is replayed)"""
-    return c.get("vid", c["cid"])
+    """variant selector of a case: a fixed scramble of its number in the run that produced it (the number is kept when the case is replayed).
+    TLC writes its cases in sorted order, so the raw number runs in step with the case's own fields (every third case has the same mode, ...);
+    choosing variants by `number % k` then ties a variant to a field value and whole combinations never occur.  The scramble (two rounds of
+    multiply / xor-shift on 32 bits, a bijection) makes `vid(c) % k` behave like an independent draw while staying reproducible."""
+    v = int(c.get("vid", c["cid"])) & 0xFFFFFFFF
+    v = (v * 2654435761) & 0xFFFFFFFF
+    v ^= v >> 15
+    v = (v * 2246822519) & 0xFFFFFFFF
+    v ^= v >> 13
+    return v
 
 
 def pick(c, salt, n):
